@@ -233,6 +233,31 @@ func checkC10(c *Ctx) {
 	// the lifetime announced (the package variables above) is the lifetime enforced: the expiry fields have no other source
 	checkTimeoutWriters(c, "C10.2", "lib.RegisteredDecoys")
 
+	// ---- C10.8 what was announced stays true: the fields an announcement carries (phantom address, destination port,
+	// protocol, registrant address) are written only while a registration is being built - never on a registration
+	// that is already tracked (the detector's session is keyed on the values of the New message)
+	r.Rule("C10.8", "the announced fields of a registration are written only during its construction", 3)
+	{
+		n := 0
+		for _, f := range c.funcsOfPkgs("pkg/station/lib", "cmd/application") {
+			for _, fld := range []string{"PhantomIp", "PhantomPort", "PhantomProto", "registrationAddr"} {
+				for _, st := range fieldStores(f, "lib.DecoyRegistration", fld) {
+					n++
+					r.Check(freshRoot(st.Addr, f), "C10.8", fnName(f)+": writes DecoyRegistration."+fld, st.Pos(), fnName(f), "on a registration created in this call",
+						"field "+fld+" of a registration that may already be tracked (and announced) is rewritten: the station then expects the client on other values than the detector's session was opened with, and nothing announces the change")
+				}
+			}
+		}
+		if n == 0 {
+			r.Unk("C10.8", "stores to announced fields", token.NoPos, "", "none found")
+		}
+	}
+
+	// ---- C10.9 the lifetime that was requested is the lifetime that runs: the station's clock for a registration
+	// starts when its timeout record is created and is never restarted - the detector was asked for 10 min / 6 h from
+	// the New / Update message and is not asked again
+	checkExpiryClock(c, "C10.9")
+
 	// ---- C10.7 the New announcement describes the registration the station keeps: it is made by register(), for the
 	// tracked object (what registrationExists returned), not for the delivery that happened to trigger it
 	r.Rule("C10.7", "registerForDetector is invoked only by RegisteredDecoys.register, on the tracked registration", 1)
@@ -599,4 +624,25 @@ func derivesOnlyFromCalls(v ssa.Value, short string, depth int) bool {
 		}
 	}
 	return false
+}
+
+
+// checkExpiryClock: DecoyTimeout.registrationTime is written only where the record is created (shared by C10.9 and
+// C08.8: restarting the clock on a duplicate delivery keeps a registration past its lifetime, and past the session
+// the detector was asked for).
+func checkExpiryClock(c *Ctx, rule string) {
+	r := c.R
+	r.Rule(rule, "the registration time of a timeout record is set only when the record is created", 1)
+	n := 0
+	for _, f := range c.funcsOfPkgs("pkg/station/lib", "cmd/application") {
+		for _, st := range fieldStores(f, "lib.DecoyTimeout", "registrationTime") {
+			n++
+			al, isAlloc := st.Addr.(*ssa.FieldAddr).X.(*ssa.Alloc)
+			r.Check(isAlloc && al.Heap || isAlloc, rule, fnName(f)+": writes DecoyTimeout.registrationTime", st.Pos(), fnName(f), "on the record literal being created",
+				"the registration time of an existing timeout record is rewritten: the station's 10 min / 6 h then run from that moment, so the registration is kept (and matched) past its lifetime while the detector's session - requested once, from the original New / Update - has already ended")
+		}
+	}
+	if n == 0 {
+		r.Unk(rule, "stores to DecoyTimeout.registrationTime", token.NoPos, "", "none found")
+	}
 }
